@@ -228,18 +228,28 @@ func (eval Evaluator) MultiplyByDiagMatrix(ctIn *rlwe.Ciphertext, matrix LinearT
 		}
 	}
 
-	if len(keys)%QiOverF == 0 {
-		ringQ.Reduce(c0OutQP.Q, c0OutQP.Q)
-		ringQ.Reduce(c1OutQP.Q, c1OutQP.Q)
-	}
+	if len(keys) == 0 {
 
-	if len(keys)%PiOverF == 0 {
-		ringP.Reduce(c0OutQP.P, c0OutQP.P)
-		ringP.Reduce(c1OutQP.P, c1OutQP.P)
-	}
+		// The diagonal of index 0 is the only non-zero diagonal: no rotation
+		// was evaluated and the accumulator has not been written yet.
+		c0OutQP.Q.Zero()
+		c1OutQP.Q.Zero()
 
-	eval.ModDownQPtoQNTT(levelQ, levelP, c0OutQP.Q, c0OutQP.P, c0OutQP.Q) // sum(phi(c0 * P + d0_QP))/P
-	eval.ModDownQPtoQNTT(levelQ, levelP, c1OutQP.Q, c1OutQP.P, c1OutQP.Q) // sum(phi(d1_QP))/P
+	} else {
+
+		if len(keys)%QiOverF == 0 {
+			ringQ.Reduce(c0OutQP.Q, c0OutQP.Q)
+			ringQ.Reduce(c1OutQP.Q, c1OutQP.Q)
+		}
+
+		if len(keys)%PiOverF == 0 {
+			ringP.Reduce(c0OutQP.P, c0OutQP.P)
+			ringP.Reduce(c1OutQP.P, c1OutQP.P)
+		}
+
+		eval.ModDownQPtoQNTT(levelQ, levelP, c0OutQP.Q, c0OutQP.P, c0OutQP.Q) // sum(phi(c0 * P + d0_QP))/P
+		eval.ModDownQPtoQNTT(levelQ, levelP, c1OutQP.Q, c1OutQP.P, c1OutQP.Q) // sum(phi(d1_QP))/P
+	}
 
 	if state { // Rotation by zero
 		ringQ.MulCoeffsMontgomeryThenAdd(matrix.Vec[0].Q, ctInTmp0, c0OutQP.Q) // opOut += c0_Q * plaintext
